@@ -238,7 +238,7 @@ func checkC02(c *checkCtx) {
 	if !checkProgress(c, "C02.") {
 		return
 	}
-	checkModels(c, "M.")
+	checkModels(c, "M.", "retry.")
 	checkGating(c, "C02.")
 	// budget isolation is implied: every execution's trace conforms independently
 	if len(c.Views) > 1 {
@@ -308,7 +308,8 @@ func checkC10(c *checkCtx) {
 	if !checkProgress(c, "C10.") {
 		return
 	}
-	checkModels(c, "M.")
+	// the verdict is the fallback's own classification of its output when the outermost fallback was applied
+	checkModels(c, "M.", "fallback.", "verdict.fallback-output")
 }
 
 // ---- C11 ----
@@ -350,6 +351,6 @@ func checkC11(c *checkCtx) {
 	if !checkProgress(c, "C11.") {
 		return
 	}
-	checkModels(c, "M.")
+	checkModels(c, "M.", "cache.")
 	checkGating(c, "C11.")
 }
